@@ -2,6 +2,7 @@ import JediModel.Proto
 import JediModel.Model.Nesting
 import JediModel.Gen.C18
 import JediModel.Lemmas.Nesting
+import JediModel.Model.Members
 open Lean Proto JediModel.Nesting
 open JediModel.Scopes (Kind)
 
@@ -77,6 +78,28 @@ def handle (j : Json) : Json :=
       ("scopefull", jarr ((List.range p.scopes.length).map fun s => jnames (fullNameOfScope mp jn p s))),
       ("qualname", jarr ((List.range p.scopes.length).map fun s => jstr (".".intercalate (qualnameOf p s)))),
       ("allclass", jarr ((List.range p.scopes.length).map fun s => jbool (allClassAncestors p p.fuel s)))]
+  | "members" =>
+    let h : JediModel.Members.Hier := (arr j "classes").map fun c =>
+      { path := (arr c "path").map asStr, bases := (arr c "bases").map asNat,
+        members := (arr c "members").map asStr }
+    let mods := (arr j "modnames").map asStr
+    let qs := (arr j "queries").map fun q =>
+      match asArr q with
+      | [c, a] => (asNat c, asStr a)
+      | _ => (0, "")
+    jobj [
+      ("mro", jarr ((List.range h.length).map fun c => jarr ((JediModel.Members.mro h c).map jnat))),
+      ("found", jarr (qs.map fun (c, a) =>
+        match JediModel.Members.lookup h c a with
+        | some d => jnat d
+        | none => .null)),
+      ("full", jarr (qs.map fun (c, a) =>
+        jnames (JediModel.Members.memberFullName JediModel.Gen.C18.mapping JediModel.Gen.C18.moduleJoin
+          JediModel.Gen.C18.boundMethodOwnQual mods h c a))),
+      ("qualname", jarr (qs.map fun (c, a) =>
+        match JediModel.Members.lookup h c a with
+        | some d => jstr (".".intercalate (JediModel.Members.defQualname h d a))
+        | none => .null))]
   | op => jobj [("error", jstr ("unknown op " ++ op))]
 
 def main : IO Unit := Proto.run handle
